@@ -111,9 +111,11 @@ Qed.
 
 Section CgSem2.
   Variable g0 : mg nat.
+  Context {D : Type} {eqD : EqB D}.
   Variable U : Type.
-  Variable f : nat -> (nat -> bool) -> U -> bool.
-  Variable rho : nat -> bool.
+  Variable f : nat -> (nat -> D) -> U -> D.
+  Variable rho : nat * bool -> D.
+  Hypothesis rho_distinct : forall n, rho (n, false) <> rho (n, true).
   Hypothesis f_local : local g0 U f.
   Variable order : list nat.
   Hypothesis order_ok : is_topo g0 order = true.
@@ -187,6 +189,6 @@ Section CgSem2.
     apply negb_true_iff in Hinc. apply eqb_neq in Hinc. apply ev_get_In in Ea, Eb. pose proof (Hall _ Ea) as H1. pose proof (Hall _ Eb) as H2. unfold CgSemP.holds in H1, H2. cbn [fst snd] in H1, H2.
     pose proof (named _ Ea) as N1. pose proof (named _ Eb) as N2. cbn [fst snd] in N1, N2.
     assert (Hv : val a = val b) by (apply Heq; intros p Hp _; apply Hall; exact Hp). rewrite H1, H2 in Hv. unfold lit in Hv.
-    destruct x as [xn xs], y as [yn ys]. cbn [fst snd] in *. subst xn yn. rewrite Hvn in Hv. apply Hinc. f_equal; [exact Hvn|]. destruct (rho (vn b)), xs, ys; cbn in Hv; congruence.
+    destruct x as [xn xs], y as [yn ys]. cbn [fst snd] in *. subst xn yn. rewrite Hvn in Hv. apply Hinc. f_equal; [exact Hvn|]. destruct xs, ys; try reflexivity; exfalso; [apply (rho_distinct (vn b)); symmetry; exact Hv|apply (rho_distinct (vn b)); exact Hv].
   Qed.
 End CgSem2.
